@@ -14,6 +14,26 @@ def fkey(fn):
 OPTARG = ('ext', 'optarg')
 THROWING = {'std::filesystem::file_size': 1, 'std::stoi': None, 'std::stol': None, 'std::stoul': None, 'std::filesystem::canonical': 1,
             'std::filesystem::status': 1, 'std::filesystem::is_regular_file': 1, 'std::filesystem::exists': 1}
+# what they throw, and who catches what (the standard exception hierarchy, most derived first)
+THROWS = {'std::stoi': ('std::invalid_argument', 'std::out_of_range'), 'std::stol': ('std::invalid_argument', 'std::out_of_range'),
+          'std::stoul': ('std::invalid_argument', 'std::out_of_range')}
+FS_ERR = ('std::filesystem::filesystem_error',)
+BASES = {'std::invalid_argument': 'std::logic_error', 'std::out_of_range': 'std::logic_error', 'std::logic_error': 'std::exception',
+         'std::filesystem::filesystem_error': 'std::system_error', 'std::system_error': 'std::runtime_error', 'std::runtime_error': 'std::exception',
+         'std::bad_alloc': 'std::exception'}
+
+
+def caught_by(exc, handler):
+    h = handler.replace('class ', '').replace('struct ', '').replace('const ', '').strip()
+    if h == '...':
+        return True
+    for pref in ('', 'std::', 'std::filesystem::'):
+        e = exc
+        while e is not None:
+            if h == e or pref + h == e:
+                return True
+            e = BASES.get(e)
+    return False
 
 
 def literal_in(node):
@@ -380,7 +400,7 @@ class CliRules:
         mdl.update({'scanf': m_scanf_str, 'std::basic_string::substr': m_str_sub, 'std::basic_string::find_last_of': m_file_size,
                     'std::basic_string::find': m_file_size, 'std::basic_string::rfind': m_file_size})
         mdl.update({'getopt_long': m_getopt, 'strlog': m_strlog, 'is_valid_b64': m_valid, 'base64_to_hex': m_noop_true,
-                    'hex_to_base64': m_noop_true, 'atoi': m_atoi, '__errno_location': m_errno_loc, 'rand': m_rand, 'srand': m_srand, 'strtol': m_strtol, 'strtoul': m_strtol, 'std::vector::size': m_vecsize,
+                    'hex_to_base64': m_noop_true, 'atoi': m_atoi, 'std::stoi': m_atoi, 'std::stol': m_atoi, 'std::stoul': m_atoi, '__errno_location': m_errno_loc, 'rand': m_rand, 'srand': m_srand, 'strtol': m_strtol, 'strtoul': m_strtol, 'std::vector::size': m_vecsize,
                     'std::basic_string::basic_string': m_str_ctor, 'std::operator+': m_str_plus,
                     'std::basic_string::operator=': m_str_assign, 'std::basic_string::operator+=': m_str_append, 'std::basic_string::append': m_str_append,
                     'std::basic_string::clear': m_str_clear, 'std::basic_string::c_str': m_str_cstr,
@@ -805,11 +825,11 @@ class CliRules:
         for x in reach:
             fn = prog.functions[x]
             # calls inside try blocks
-            guarded = set()
+            guarded = {}
             for t in walk(fn['body']):
                 if t['k'] == 'CXXTryStmt':
                     for n in walk(t['body']):
-                        guarded.add(n['_id'])
+                        guarded.setdefault(n['_id'], []).extend(t.get('catches') or ['...'])
             for n in walk(fn['body']):
                 if n['k'] == 'CallExpr':
                     q = n['callee'].get('q')
@@ -818,9 +838,13 @@ class CliRules:
                         if nargs is not None and len(n.get('args', [])) != nargs:
                             continue        # the error_code overload does not throw
                         nchk += 1
-                        ok = n['_id'] in guarded
+                        hs = guarded.get(n['_id'])
+                        throws = THROWS.get(q, FS_ERR)
+                        loose = [e for e in throws if hs is None or not any(caught_by(e, h) for h in hs)]
+                        ok = not loose
                         rec.ob('R17.f', 'R17.f@%s::throwing-call-guarded' % fkey(fn), ok, nloc(n),
-                               '%s (throws on a path that is not a regular file) %s a try block' % (q, 'inside' if ok else 'OUTSIDE'))
+                               '%s throws %s: %s' % (q, ', '.join(throws), 'every one is caught by the enclosing try (%s)' % ', '.join(hs) if ok else
+                                                    ('NOT inside a try block' if hs is None else '%s is not caught by the handlers (%s) and ends the process' % (', '.join(loose), ', '.join(hs)))))
         rec.count('R17.f throwing calls', nchk, 1)
 
     # ------------------------------------------------------------------ parser state reset (C15)
